@@ -208,3 +208,63 @@ def run(chk, F, G, T, rid="R-DRIVER"):
     if n_sites == 0:
         raise AnalysisBroken("R-DRIVER found no operand-consuming driver call in XMLReader")
     chk.analysed[rid] = {"driver_sites": n_sites, "parts": len(parts)}
+
+
+def deferred(chk, F, T, rid="R-DEFER"):
+    """Operands that a block parse leaves for a *later* direct call are identified by position from the top of the
+    operand stack.  That is only sound if nothing else can be pushed in between: every block parse that can give
+    up (utap_parse() != 0 after a syntax error) leaves whatever it had pushed so far.  Obligation per deferred
+    consumer: between the licensed parse and the consuming call no further block parse can run."""
+    chk.rule(rid, "between a block parse whose operands a later direct builder call consumes and that call, no other "
+                  "block parse can run (a parse that gives up leaves its partial operands on the stack, and the "
+                  "consumer takes the top ones)")
+    fn = F.fn("UTAP::XMLReader::location")
+    consumer = [c for c in walk(fn["body"]) if c.get("k") == "call" and c.get("name") == "proc_location"]
+    if not consumer:
+        raise AnalysisBroken("XMLReader::location no longer calls proc_location")
+    # producers: calls (transitively within XMLReader) that reach XMLReader::parse
+    def reaches_parse(q, seen):
+        if q in seen:
+            return False
+        seen.add(q)
+        for f in F.fns(q):
+            for c in walk(f.get("body")):
+                if c.get("k") == "call" and c.get("cls") == "UTAP::XMLReader":
+                    if c.get("name") == "parse" or reaches_parse(c.get("fn"), seen):
+                        return True
+        return False
+    producers = []
+
+    def scan(n, in_loop):
+        if isinstance(n, list):
+            for x in n:
+                scan(x, in_loop)
+            return
+        if not isinstance(n, dict):
+            return
+        k = n.get("k")
+        if k in ("while", "for", "do", "rangefor"):
+            for key, v in n.items():
+                if isinstance(v, (dict, list)):
+                    scan(v, True)
+            return
+        if k == "call" and n.get("cls") == "UTAP::XMLReader" and reaches_parse(n.get("fn"), set()):
+            producers.append((n, in_loop))
+        for v in n.values():
+            if isinstance(v, (dict, list)):
+                scan(v, in_loop)
+    scan(fn["body"], False)
+    if not producers:
+        raise AnalysisBroken("XMLReader::location: no block parse before proc_location found")
+    where = "%s:%s" % (fn["file"], consumer[0].get("l"))
+    looped = [p for p, lp in producers if lp]
+    ok = len(producers) == 1 and not looped
+    chk.ob(rid, "location|proc_location|single-parse", ok,
+           "XMLReader::location parses the labels of a location in a loop (%s) and only afterwards lets proc_location "
+           "pop the invariant / rate from the top of the operand stack: a label that fails to parse after a good "
+           "one (invariant `x<=5`, then rate `3 +`) leaves its partial operand on top, and the location gets "
+           "invariant `3`" % ", ".join(sorted({p.get("name") for p in looped} or {p.get("name") for p, _ in producers}))
+           if not ok else "exactly one block parse precedes proc_location", where)
+    # order: the consumer pops the rate first, then the invariant; the reader accepts the labels in any order
+    names = {p.get("name") for p, _ in producers}
+    chk.analysed[rid] = {"producers": sorted(names), "in_loop": bool(looped)}
